@@ -1,2 +1,43 @@
-(* C02 — Decoding work and memory are bounded by the datagram's size (theorems added as proved). *)
-From VF Require Import Base.Prelude Model.Flow.
+(* C02 — Decoding work and memory are bounded by the datagram's size.
+   Termination: every loop of the models runs on explicit fuel S(length payload) and the theorems
+   show that this fuel never runs out (the result is Ok, never Hang), i.e. at most length+1
+   iterations of every loop.  Records: at most one record per octet of the datagram.
+   (Allocation is measured on the implementation against a linear bound; it is not a theorem.) *)
+From VF Require Import Base.Prelude Model.Reader Model.Layout Model.JsonPieces Model.Flow Model.Cache
+  Model.Ipfix Model.Nf9 Model.Nf5 Model.History
+  Proofs.FlowSafety Proofs.FlowSafety9 Proofs.CacheProofs Proofs.IpfixHistory Proofs.Nf9History Proofs.Nf5Proofs Proofs.Tie.
+From VF Require Gen.Layouts.
+
+Theorem C02_ipfix_bounded : forall im hl h c, wf_cache c ->
+  exists c' ds, run_history (ipfix_decode cc_ops im hl) c h = Ok (c', ds) /\
+    Forall (IpfixHistory.bounded) (combine h ds).
+Proof.
+  intros im hl h c H. destruct (IpfixHistory.history_safe im hl h c H) as (c' & ds & E & _ & _ & Hb).
+  exists c', ds. auto.
+Qed.
+Print Assumptions C02_ipfix_bounded.
+
+Theorem C02_nf9_bounded : forall im hl h c, wf_cache c ->
+  exists c' ds, run_history (nf9_decode cc_ops im hl) c h = Ok (c', ds) /\
+    Forall (Nf9History.bounded) (combine h ds).
+Proof.
+  intros im hl h c H. destruct (Nf9History.history_safe im hl h c H) as (c' & ds & E & _ & _ & Hb).
+  exists c', ds. auto.
+Qed.
+Print Assumptions C02_nf9_bounded.
+
+(* one datagram, any cache invariant, any cache implementation whose operations are total on it *)
+Theorem C02_ipfix_datagram : forall (C : Type) (ops : cache_ops C) im hl addr (Inv : C -> Prop),
+  (forall c id, Inv c -> exists o, c_retrieve ops c id addr = Ok o) ->
+  (forall c id t, Inv c -> exists c', c_insert ops c id addr t = Ok c' /\ Inv c') ->
+  forall c p, Inv c ->
+  exists c' d, ipfix_decode ops im hl c addr p = Ok (c', d) /\ Inv c' /\
+    match d with DMsg m _ => len (i_sets m) <= len p | DFail => True end.
+Proof. intros C ops im hl addr Inv. exact (ipfix_decode_safe ops im hl addr Inv). Qed.
+Print Assumptions C02_ipfix_datagram.
+
+Theorem C02_nf5_bounded : forall addr p m c,
+  Nf5.nf5_decode Gen.Layouts.nf5_header_layout Gen.Layouts.nf5_flow_layout addr p = Ok (m, c) ->
+  48 * len (n5_flows m) <= len p /\ len (n5_flows m) <= 30.
+Proof. intros addr p. rewrite tie_nf5_header_layout, tie_nf5_flow_layout. apply nf5_total. Qed.
+Print Assumptions C02_nf5_bounded.
